@@ -194,7 +194,7 @@ def run(repo, tier):
     for a in augs:
         if not isinstance(a.op, (ast.BitOr, ast.BitAnd, ast.BitXor)):
             raise AnalysisError(f"fpu.py:{a.lineno}: non-bitwise update of {var}")
-    from sa.absint import Interp, Closure, Unsupported as IUnsupported, PyRaise
+    from sa.absint import Interp, Closure, AObj, Unsupported as IUnsupported, PyRaise
 
     class _Val:
         __absint_host__ = True
@@ -211,7 +211,7 @@ def run(repo, tier):
         args = []
         for nm in names:
             if nm == "self":
-                args.append(_Val(0))
+                args.append(AObj(REL, reg))  # an uninitialised instance: helper methods of the class resolve through it
             elif nm in kwargs:
                 args.append(kwargs.pop(nm))
             else:
